@@ -14,7 +14,17 @@ from common import build_module, case_hash, model
 SHAPES = ["Optional[{c}]", "Optional[{c}]", "List[{c}]", "Dict[str, {c}]"]
 
 
-def gen_graph(r, tag):
+# minimised past failure (row 96), run first: HP(h: H, q: Q), H(x: X), X(h: H, y: Y), Y(hp: HP), Q(x: X)
+CORPUS = [[[1, 4], [2], [1, 3], [0], [2]]]
+
+
+def gen_graph(r, tag, fixed=None):
+    if fixed is not None:
+        names = [f"G{tag}_{j}" for j in range(len(fixed))]
+        src = ["from dataclasses import dataclass, field", "from typing import Optional, List, Dict", ""]
+        for j, n in enumerate(names):
+            src += ["@dataclass", f"class {n}:", "    v: int = 0"] + [f'    f{fi}: Optional["{names[t]}"] = None' for fi, t in enumerate(fixed[j])] + [""]
+        return names, src, fixed
     k = r.randrange(2, 8)
     names = [f"G{tag}_{j}" for j in range(k)]
     src = ["from dataclasses import dataclass, field", "from typing import Optional, List, Dict", ""]
@@ -75,12 +85,13 @@ def run_part(seed, budget, exit_model="fixed"):
     failures, hist, distinct, n = [], collections.Counter(), set(), 0
     cases, reqs = [], []
     for gi in range(60 * budget):
-        names, src, edges = gen_graph(r, f"{seed}_{gi}")
+        names, src, edges = gen_graph(r, f"{seed}_{gi}", CORPUS[gi] if gi < len(CORPUS) else None)
         mod = build_module(src, f"recg{seed}_{gi}"); ns = vars(mod)
         classes = [ns[x] for x in names]
         ids, graph = type_graph(classes)
         rev = {i: tp for tp, i in ids.items()}
         starts = [r.choice(classes) for _ in range(r.randrange(1, 4))]
+        if gi < len(CORPUS): starts = [classes[0]]
         if r.random() < 0.3:                                       # a call on a field type (Optional[...] / List[...]) as well
             inner = [tp for tp in ids if typing.get_origin(tp) is not None]
             if inner: starts.insert(r.randrange(len(starts) + 1), r.choice(inner))
@@ -103,7 +114,8 @@ def run_part(seed, budget, exit_model="fixed"):
         if wrong: why.append("is_recursive-not-exact:" + ",".join(f"{case['nodes'][str(i)]}={memo[i]}" for i in wrong))
         # P2: cold first uses, generated order
         apischema.cache.reset()
-        order = classes[:]; r.shuffle(order)
+        order = classes[:]
+        if gi >= len(CORPUS): r.shuffle(order)
         for c in order:
             for label, fn in (("deserialize", lambda: deserialize(c, {})), ("serialize", lambda: serialize(c, c())), ("schema", lambda: deserialization_schema(c))):
                 try: fn()
